@@ -1,7 +1,7 @@
 SPECIFICATION Spec
 CONSTANTS
   GapSet = {"sp", "nl"}
-  ObjForms = {"o.pn", "o.str", "o.dtp", "o.dtg", "o.bs", "o.lang", "o.spec", "o.int", "o.pint", "o.https"}
+  ObjForms = {"o.pn", "o.str", "o.dtp", "o.dtg", "o.bs", "o.lang", "o.spec", "o.int", "o.pint", "o.dot", "o.https"}
   SubjForms = {"s.bs"}
 INVARIANT GeneratorLemma
 INVARIANT C07Design
